@@ -597,7 +597,7 @@ func (fr *Frame) convert(in *ssa.Convert, st *State, pos string) Val {
 	case fromSlice || toSlice:
 		panic(unsupported("slice conversion"))
 	case fs == SInt && ts == SInt:
-		return &VS{vc.nameIfBig(wrapTo(scalarOf(x, from), to))}
+		return &VS{vc.nameIfBig(convInt(scalarOf(x, from), from, to))}
 	case fs == SInt && ts == SReal:
 		return &VS{mkApp("to_real", SReal, scalarOf(x, from))}
 	case fs == SReal && ts == SInt:
